@@ -670,18 +670,29 @@ class FieldValueBase(ParsableBase, Serializable):
 class FieldsJson(FieldValueBase):
     @classmethod
     def _parse(cls, parsable):
+        error_value = bytes(parsable).decode('ascii', 'replace')
         try:
-            raw_values = json.loads(parsable.decode('ascii'), object_pairs_hook=collections.OrderedDict)
-        except ValueError as e:  # json.decoder.JSONDecodeError is derived from ValueError
-            six.raise_from(InvalidValue(six.ensure_text(parsable, 'ascii'), cls, 'value'), e)
+            raw_values = json.loads(bytes(parsable).decode('ascii'), object_pairs_hook=collections.OrderedDict)
+        except (ValueError, RuntimeError) as e:
+            # json.decoder.JSONDecodeError and UnicodeDecodeError are derived from ValueError,
+            # RecursionError (too deeply nested document) from RuntimeError
+            six.raise_from(InvalidValue(error_value, cls, 'value'), e)
+
+        if not isinstance(raw_values, dict):
+            raise InvalidValue(error_value, cls, 'value')
 
         attr_fields_dict = attr.fields_dict(cls)
 
-        return cls(**{
-            attribute_name: raw_values[validator_class.get_canonical_name()]
-            for attribute_name, validator_class in cls._get_attr_to_validator_type_dict(attr_fields_dict).items()
-            if validator_class.get_canonical_name() in raw_values
-        }), len(parsable)
+        try:
+            parsed_object = cls(**{
+                attribute_name: raw_values[validator_class.get_canonical_name()]
+                for attribute_name, validator_class in cls._get_attr_to_validator_type_dict(attr_fields_dict).items()
+                if validator_class.get_canonical_name() in raw_values
+            })
+        except (TypeError, ValueError) as e:
+            six.raise_from(InvalidValue(error_value, cls, 'value'), e)
+
+        return parsed_object, len(parsable)
 
     def compose(self):
         attr_fields_dict = attr.fields_dict(type(self))
